@@ -432,8 +432,8 @@ func run(c *mon.Ctx) {
 	c.Exhaustive("all 256 flag bytes x both flavours", 512)
 	c.Floor("decoded_then_flavour_setter", 500)
 	c.Floor("concurrent.calls", 5000)
-	c.Stream("concurrent-codecs", c.N(3, 150), func(i int, r *gen.Rand) {
-		c.Concurrent("ebp.ReadEncoderBoundaryPoint + Data", 8, 250, r, func(q *gen.Rand) string {
+	c.Stream("concurrent-codecs", c.N(8, 200), func(i int, r *gen.Rand) {
+		c.Concurrent("ebp.ReadEncoderBoundaryPoint + Data", 8, 2000, r, func(q *gen.Rand) string {
 			e := genEBP(q, q.Bool(), q.Byte())
 			in := e.Bytes()
 			if len(in) > 257 {
